@@ -30,7 +30,8 @@ EXPLANATION = (
     'emit is indent + text + newline through emit_raw; the buffer is rendered by one str.format '
     'with the registered placeholders; emit_wrapped_text forwards each wrapping option to the '
     'like-named textwrap.fill parameter. R4: indent/block restore cur_indent symmetrically. '
-    'Decides these structural parts; word order of wrapped text is textwrap\'s.')
+    'Decides these structural parts; word order of wrapped text is textwrap\'s.'
+    ' RD (decision drift, stonelint.conddrift): the tests of the functions this property is anchored in (stonelint.ownership) are compared with reference/conditions.json; a relation, polarity or connective changed over the same operands, or an operand purely added or dropped, is a violation; re-spellings and new or removed tests are not claimed.')
 ASSUMPTIONS = [
     'library model: shutil.copy(src, dst) writes to join(dst, basename(src)) when dst is a '
     'directory, else to dst; os.path.relpath/abspath normalise `..` segments lexically',
@@ -389,6 +390,10 @@ def run(pm, ctx):
               key='C18-R4|%s' % gml.qualname)
 
     multiline_list_text(pm, ctx)
+
+    from ..conddrift import run_decisions
+    from ..ownership import OWN
+    run_decisions(pm, ctx, 'C18-RD', OWN['C18'])
 
 
 def _check_sink(pm, ctx, f, call, d, kind):
